@@ -25,21 +25,21 @@ VERIF = os.path.dirname(os.path.dirname(os.path.abspath(__file__)))
 
 FILE_CHECKS = {
     "ribs/archives/_transforms.py": ["C01", "C02", "C05", "C06", "C14"],
-    "ribs/archives/_array_store.py": ["C13", "C11", "C01"],
-    "ribs/archives/_archive_base.py": ["C01", "C02", "C06", "C07", "C11"],
-    "ribs/archives/_grid_archive.py": ["C03", "C07"],
-    "ribs/archives/_cvt_archive.py": ["C03", "C07"],
+    "ribs/archives/_array_store.py": ["C13", "C11", "C01", "C12"],
+    "ribs/archives/_archive_base.py": ["C01", "C02", "C06", "C07", "C11", "C12"],
+    "ribs/archives/_grid_archive.py": ["C03", "C07", "C11"],
+    "ribs/archives/_cvt_archive.py": ["C03", "C07", "C11", "C09"],
     "ribs/archives/_sliding_boundaries_archive.py": ["C15", "C07", "C11"],
     "ribs/archives/_proximity_archive.py": ["C14", "C07", "C11"],
-    "ribs/_utils.py": ["C11", "C01", "C13"],
-    "ribs/schedulers/_scheduler.py": ["C04"],
+    "ribs/_utils.py": ["C11", "C01", "C13", "C04", "C19"],
+    "ribs/schedulers/_scheduler.py": ["C04", "C12"],
     "ribs/schedulers/_bandit_scheduler.py": ["C16", "C04"],
     "ribs/emitters/rankers.py": ["C17"],
     "ribs/emitters/_evolution_strategy_emitter.py": ["C10", "C08"],
     "ribs/emitters/_gradient_arborescence_emitter.py": ["C10", "C19"],
     "ribs/emitters/_gradient_operator_emitter.py": ["C19", "C08"],
     "ribs/emitters/_gaussian_emitter.py": ["C08"],
-    "ribs/emitters/_iso_line_emitter.py": ["C08"],
+    "ribs/emitters/_iso_line_emitter.py": ["C08", "C09"],
     "ribs/emitters/opt/_cma_es.py": ["C18"],
     "ribs/emitters/opt/_sep_cma_es.py": ["C18"],
     "ribs/emitters/opt/_lm_ma_es.py": ["C18"],
@@ -210,7 +210,7 @@ def sh(cmd, env=None, cwd=None, timeout=900):
         return 124, "timeout"
 
 
-def run_mutant(k, rel, point, src, out_dir, seed):
+def run_mutant(k, rel, point, src, out_dir, seed, translate=False):
     new_src = apply_point(src, point)
     if new_src is None:
         return None
@@ -224,7 +224,9 @@ def run_mutant(k, rel, point, src, out_dir, seed):
         shutil.copytree("/repo/ribs", os.path.join(root, "ribs"))
         with open(os.path.join(root, rel), "w") as f:
             f.write(new_src)
-        env = dict(os.environ, PYTHONPATH=root, VERIF_REPO=root, VERIF_SEED=str(seed), VERIF_NO_TRANSLATE="1")
+        env = dict(os.environ, PYTHONPATH=root, VERIF_REPO=root, VERIF_SEED=str(seed))
+        if not translate:   # the generated Lean files are shared: translation only with --jobs 1
+            env["VERIF_NO_TRANSLATE"] = "1"
         rc, out = sh("/venv/bin/python -c 'import ribs, ribs.archives, ribs.emitters, ribs.schedulers, ribs.visualize'",
                      env=env, cwd="/tmp", timeout=120)
         if rc != 0:
@@ -235,7 +237,10 @@ def run_mutant(k, rel, point, src, out_dir, seed):
             if rc == 1:
                 verdict, by = "KILLED", c
                 break
-            if rc == 2 or rc == 124:
+            if rc == 124:
+                verdict, by = "TIMEOUT", c
+                break
+            if rc == 2:
                 verdict, by = "CRASHED", c
                 tail = out[-1500:]
                 with open(os.path.join(out_dir, f"crash_{k}.txt"), "w") as f:
@@ -258,7 +263,13 @@ def main():
     ap.add_argument("--jobs", type=int, default=5)
     ap.add_argument("--seed", type=int, default=0)
     ap.add_argument("--out", default="/tmp/mutation_run")
+    ap.add_argument("--rerun", help="results.json of an earlier run: run again the mutants with --verdicts")
+    ap.add_argument("--verdicts", default="SURVIVED,CRASHED")
+    ap.add_argument("--translate", action="store_true", help="let the checks regenerate the Lean model parts from the "
+                    "mutant (serial: forces --jobs 1)")
     a = ap.parse_args()
+    if a.translate:
+        a.jobs = 1
     files = a.files.split(",") if a.files else list(FILE_CHECKS)
     os.makedirs(a.out, exist_ok=True)
     rng = random.Random(a.seed)
@@ -272,10 +283,14 @@ def main():
             work.append((rel, p, src))
     rng.shuffle(work)
     work = work[:a.max]
+    if a.rerun:
+        want = set(a.verdicts.split(","))
+        work = [(r["file"], tuple(r["point"]), open(os.path.join("/repo", r["file"])).read())
+                for r in json.load(open(a.rerun)) if r["verdict"] in want]
     print(f"{len(work)} mutants over {len(files)} files, {a.jobs} jobs")
     results = []
     with ThreadPoolExecutor(a.jobs) as ex:
-        futs = [ex.submit(run_mutant, k, rel, p, src, a.out, a.seed) for k, (rel, p, src) in enumerate(work)]
+        futs = [ex.submit(run_mutant, k, rel, p, src, a.out, a.seed, a.translate) for k, (rel, p, src) in enumerate(work)]
         for f in futs:
             r = f.result()
             if r:
